@@ -158,6 +158,9 @@ def body(chk):
     from harness import sessioncheck
 
     sessioncheck.standard(chk)
+    from harness import envrun
+
+    envrun.run(chk, {"structure", "spurious_error"})
     chk.finish(rule="products = the family TLC enumerated (sequences of 1..3 distinct (polarisation, scan) x map projection 0/1; a deterministic third in "
                     "quick) + random products of 4..8 images in unsorted listing order; each opened twice; distinct = (group name sequence, map projection)",
                exhaustive=(chk.tier == "thorough"), extra={"family": len(fam)})
